@@ -79,6 +79,9 @@ type kase struct {
 	// seq
 	Seed uint64 `json:"seed,omitempty"`
 	Len  int    `json:"len,omitempty"`
+	// PRNG stream for how the config is built and which sibling configs are
+	// derived from it before instantiation
+	Setup uint64 `json:"setup"`
 }
 
 func child(mode string, in json.RawMessage) any {
@@ -101,7 +104,7 @@ func runCase(k kase, res *result) {
 	if k.Mount == mountRORW {
 		w.resetRW()
 	}
-	s, err := newSess(w, k.Mount, k.Engine, res)
+	s, err := newSess(w, k.Mount, k.Engine, k.Setup, res)
 	if err != nil {
 		res.Fatal = "instantiate: " + err.Error()
 		return
@@ -130,7 +133,7 @@ func runCase(k kase, res *result) {
 		res.count("preopen_closed_by_guest", 1)
 	}
 	s.close()
-	s2, err := newSess(w, k.Mount, k.Engine, res)
+	s2, err := newSess(w, k.Mount, k.Engine, k.Setup+1, res)
 	if err != nil {
 		res.Fatal = "instantiate (fresh): " + err.Error()
 		return
@@ -303,7 +306,11 @@ func (s *sess) readCheck(tag string) {
 	s.res.count("read_checks", 1)
 	bad := func(what, detail string) {
 		s.res.count("read_check_failures", 1)
-		s.report(fmt.Sprintf("%s:reads-stop-working:%s:%s", s.mount, tag, what),
+		m := s.mount
+		if s.sigTag != "" {
+			m += ":" + s.sigTag
+		}
+		s.report(fmt.Sprintf("%s:reads-stop-working:%s:%s", m, tag, what),
 			fmt.Sprintf("after the history, reading %q through the %s mount (%s, %s): %s", knownFile, s.mount, s.engine, tag, detail), nil)
 	}
 	errno, fd, ok := s.pathOpen(3, lookupFollow, knownFile, 0, 0, rightFdRead)
